@@ -56,8 +56,8 @@ def rot24():
     return ROT24
 
 
-def make_loader(tomo, pos, mats, order, scale, shape, corner_safe, dask_chunks=None):
-    from acryo import SubtomogramLoader, Molecules
+def make_loader(tomo, pos, mats, order, scale, shape, corner_safe, dask_chunks=None, via="single"):
+    from acryo import SubtomogramLoader, BatchLoader, Molecules
     from scipy.spatial.transform import Rotation
     import dask.array as da
     rot = Rotation.from_matrix(np.stack(mats).astype(float))
@@ -65,6 +65,15 @@ def make_loader(tomo, pos, mats, order, scale, shape, corner_safe, dask_chunks=N
     img = tomo.astype(np.float32)
     if dask_chunks is not None:
         img = da.from_array(img, chunks=dask_chunks)
+    if via == "batch":
+        # the same molecule through a BatchLoader (with an unrelated first tomogram): every loader option must reach the per-tomogram loaders
+        b = BatchLoader(order=order, scale=scale, output_shape=tuple(shape), corner_safe=corner_safe)
+        b.add_tomogram(img, mol, image_id=4)
+        return b
+    if via == "group":
+        mol = Molecules(np.asarray(pos, dtype=np.float32), rot, features={"g": [1] * len(pos)})
+        ld = SubtomogramLoader(img, mol, order=order, scale=scale, output_shape=tuple(shape), corner_safe=corner_safe)
+        return list(ld.groupby("g"))[0][1]
     return SubtomogramLoader(img, mol, order=order, scale=scale, output_shape=tuple(shape), corner_safe=corner_safe)
 
 
@@ -318,9 +327,10 @@ def oracle_generic(ck, rng, n):
         rot = Rotation.random(random_state=int(rng.integers(0, 2**31)))
         c = dict(tomo=0, pos=[float(x) for x in (cpx * scale).astype(np.float32)], scale=scale,
                  rot=rot.as_matrix().tolist(), shape=shape, order=order, corner_safe=cs, kind=kind + "-generic")
-        ld = make_loader(t, [c["pos"]], [rot.as_matrix()], order, scale, shape, cs)
+        c["via"] = ["single", "batch", "group"][i % 3]
+        ld = make_loader(t, [c["pos"]], [rot.as_matrix()], order, scale, shape, cs, via=c["via"])
         try:
-            out = np.asarray(ld.load(0))
+            out = np.asarray(ld.load(0)) if c["via"] != "batch" else np.asarray(ld.asnumpy()[0])
         except SubvolumeOutOfBoundError:
             out = None
         ok, detail = oracle_one([t], c, out)
